@@ -685,15 +685,25 @@ func (s *Session) initMemManager() error {
 	return nil
 }
 
-func (s *Session) extractShmMetadata(body []byte) (bufferPath string, queuePath string) {
+func (s *Session) extractShmMetadata(body []byte) (bufferPath string, queuePath string, err error) {
+	// the lengths come from the peer: every slice is checked against what was received
 	offset := 0
+	if len(body) < offset+2 {
+		return "", "", fmt.Errorf("invalid share memory metadata, body length:%d", len(body))
+	}
 	queuePathLen := int(binary.BigEndian.Uint16(body[0:2]))
 	offset += 2
+	if len(body) < offset+queuePathLen+2 {
+		return "", "", fmt.Errorf("invalid share memory metadata, body length:%d queuePathLen:%d", len(body), queuePathLen)
+	}
 	queuePath = string(body[offset : offset+queuePathLen])
 	offset += queuePathLen
 
 	bufferPathLen := int(binary.BigEndian.Uint16(body[offset : offset+2]))
 	offset += 2
+	if len(body) < offset+bufferPathLen {
+		return "", "", fmt.Errorf("invalid share memory metadata, body length:%d bufferPathLen:%d", len(body), bufferPathLen)
+	}
 	bufferPath = string(body[offset : offset+bufferPathLen])
 	return
 }
